@@ -1018,7 +1018,13 @@ class Component(
 
         # Required for compatibility with Django's {% extends %} tag
         # See https://github.com/django-components/django-components/pull/859
-        context.render_context.push({BLOCK_CONTEXT_KEY: context.render_context.get(BLOCK_CONTEXT_KEY, BlockContext())})
+        #
+        # The `{% block %}` tags of the component's own template (and of the templates it extends) are
+        # resolved among themselves, as in a template rendered on its own, so the component gets its own
+        # BlockContext. Slot fills look up the BlockContext of the place where they were defined - that is
+        # the layer right below this one, which `SlotNode.render()` finds by the component's render ID.
+        render_id = gen_id()
+        context.render_context.push({BLOCK_CONTEXT_KEY: BlockContext(), _COMPONENT_CONTEXT_KEY: render_id})
         render_state["pushed_render_context"] = context.render_context
 
         # By adding the current input to the stack, we temporarily allow users
@@ -1028,7 +1034,6 @@ class Component(
         # This is handled as a stack, as users can potentially call `component.render()`
         # from within component hooks. Thus, then they do so, `component.id` will be the ID
         # of the deepest-most call to `component.render()`.
-        render_id = gen_id()
         metadata = MetadataItem(
             render_id=render_id,
             input=RenderInput(
